@@ -56,6 +56,13 @@ def _probe(src, info):
             if src.chance(1, 3):
                 k["_insert"] = True
         return {"t": "call", "m": f"with_{s}", "a": [["$item", a, src.choice(3)]], "k": k}
+    prepared_specs = [n for n, a in info.attrs().items() if a["type"][0] == "spec" and a["type"][1] in ("U", "N") and info.prepare_kind(n)]
+    if prepared_specs and src.chance(1, 6):
+        # keyword update of a nested value whose attribute has a preparer (a user callback that may fail AFTER the keywords have
+        # been merged): in place or by copy, the object the instance held before is not the one that gets edited
+        n = src.pick(prepared_specs)
+        kw = {"a": src.pick([7, -3])} if info.attrs()[n]["type"][1] == "U" else {"v": src.pick([7, -3])}
+        return {"t": "call", "m": f"update_{n}", "a": [], "k": dict(kw, _inplace=src.chance(2, 3))}
     invalidators = sorted({i for a in info.attrs().values() for i in (a.get("invalidated_by") or ()) if i in info.attrs()})
     if invalidators and src.chance(1, 10):
         # the attribute is assigned the very object it already holds: nothing changes - unless restoring one of its dependants
